@@ -85,9 +85,18 @@ func VerifC03Exec() {
 	root := &vfNode{kind: vfKDir, perm: 0700, fileID: 1}
 	w.top.add("root", root)
 
-	// what the plan lists: a directory with names {a,b}
-	old := vtGenNode(vParam("shape", 2)-1, []string{"a", "b"}, 0, false)
-	vAssume(old.Kind == EntryKind_Directory)
+	// what the plan lists: a directory over the names {a,b} - one fixed tree
+	// (directory a holding a file, file b), or every tree of the given shape
+	var old *Entry
+	if shape := vParam("shape", 0); shape == 0 {
+		old = &Entry{Kind: EntryKind_Directory, Contents: map[string]*Entry{
+			"a": {Kind: EntryKind_Directory, Contents: map[string]*Entry{"a": {Kind: EntryKind_File, Digest: []byte{3}}}},
+			"b": {Kind: EntryKind_File, Digest: []byte{4}, Executable: true},
+		}}
+	} else {
+		old = vtGenNode(shape-1, []string{"a", "b"}, 0, false)
+		vAssume(old.Kind == EntryKind_Directory)
+	}
 	cache := &Cache{Entries: map[string]*CacheEntry{}}
 	dir := vfMaterialize(old, "x", cache)
 	root.add("x", dir)
